@@ -9,7 +9,7 @@ def optNatI (s : String) : Option Nat := if s == "-" || s == "none" then none el
 /-- 0 = unlimited (pooled `queue_capacity`, gate `queue_capacity`) -/
 def zeroUnl (n : Nat) : Option Nat := if n == 0 then none else some n
 
-/-- header: `[current|repaired]` then `pooled pool qcap [downstream 0|1]` | `conveyor cap` | `gate init_open qcap` | `batch size timeout_ns` | `reneging limit qcap [reneged_target 0|1]` -/
+/-- header: `[current|repaired]` then `pooled pool qcap [downstream 0|1]` | `conveyor cap` | `gate init_open qcap` | `batch size timeout_ns [overlap]` | `reneging limit qcap [reneged_target 0|1]` -/
 def parseHdrI : List String → Option Cfg
   | "current" :: rest => (parseHdrI rest).map fun c => { c with repaired := false }
   | "repaired" :: rest => parseHdrI rest
@@ -18,6 +18,7 @@ def parseHdrI : List String → Option Cfg
   | ["conveyor", c] => some { comp := .conveyor, limit := natD c, unlimited := natD c == 0 }
   | ["gate", o, q] => some { comp := .gate, initOpen := o == "1", qcap := zeroUnl (natD q) }
   | ["batch", b, t] => some { comp := .batch, limit := natD b, timeout := natD t }
+  | ["batch", b, t, o] => some { comp := .batch, limit := natD b, timeout := natD t, overlap := o == "overlap" }
   | ["reneging", l, q] => some { comp := .reneging, limit := natD l, qcap := optNatI q }
   | ["reneging", l, q, r] => some { comp := .reneging, limit := natD l, qcap := optNatI q, rtarget := r != "0" }
   | _ => none
